@@ -22,7 +22,7 @@ public:
     i.rule = "plans: 1-4 fault-free transactions write -> read with the reader options that correspond to the writer options, read chunk size randomised; non-trivial = >=3 completed steps of which >=1 value comparison; distinct = distinct fingerprint of the executed op-kind/outcome sequence";
     i.simTime = "steps";
     i.faultKinds = {"read-chunking"};
-    i.probeNames = {"compared:table", "compared:dist", "compared:params", "compared:plist", "compared:optfile", "compared:resolve", "compared:optchain", "compared:keyval", "compared:tokens",
+    i.probeNames = {"compared:table", "compared:dist", "compared:params", "compared:plist", "compared:optfile", "compared:resolve", "compared:resolve-dollar-shape", "compared:optchain", "compared:keyval", "compared:tokens",
                     "written:table", "written:dist", "written:pfmt", "written:plist", "written:interval", "written:opt", "written:chain", "written:keyval"};
     i.assumptions = {"tables: 1..6 columns, at least two text lines, unique names, row names only together with column names, separator-free non-blank cells, single-character separator; reader called with the same separator, header = table has column names",
                      "row-names-from-column option: compared only for tables without row names whose chosen column holds unique values",
